@@ -88,10 +88,14 @@ def validate(ctx, traces, label):
     ctx.transitions += r.generated
     ctx.model_runs.append({"module": MODULE, "label": label, "generated": r.generated, "distinct": r.distinct,
                            "depth": r.depth, "violated": r.violated, "wall_s": round(r.wall, 2)})
+    mism = sorted({(int(a), int(b), int(c)) for a, b, c in _MIS.findall(r.out)})
     events = sum(len(t) for t in traces)
-    if r.distinct < events:
-        raise tlc.TlcError(f"trace validation explored {r.distinct} states for {events} events")
-    return sorted({(int(a), int(b), int(c)) for a, b, c in _MIS.findall(r.out)})
+    # every event of every conforming trace is one state (a trace stops at its first mismatch)
+    if r.distinct < len(traces) or (not mism and r.distinct < events):
+        raise tlc.TlcError(f"trace validation explored {r.distinct} states for {len(traces)} traces / {events} events")
+    if r.violated and not mism:
+        raise tlc.TlcError(f"trace validation reported {r.violated} without a parsable mismatch")
+    return mism
 
 
 def classify(trace, idx):
